@@ -3,6 +3,7 @@
     Property theorems only; each closed by [exact] of a lemma of C08/BinProofs.v.
     A byte string is a list of integers each satisfying [byte_ok] (0 <= b < 256). *)
 From SpyneV Require Import Base.Prelude C08.BinModel C08.BinProofs.
+From SpyneV Require Import C08.DurModel.   (* only for [lower] = str.lower() on ASCII *)
 
 (** F1. decode (encode bs) = bs for every byte string, standard and urlsafe alphabet,
     every length (0, 1, 2 mod 3: both padded forms) *)
@@ -36,6 +37,25 @@ Proof. exact unhexlify_total. Qed.
 Theorem C08_hex_reader_bytes : forall s bs,
   unhexlify s = Ok bs -> Forall (fun b => byte_ok b = true) bs.
 Proof. exact unhexlify_bytes. Qed.
+
+(** whatever the lenient base64 readers accept is a byte string *)
+Theorem C08_base64_reader_bytes : forall url s bs,
+  b64decode url s = Ok bs -> Forall (fun b => byte_ok b = true) bs.
+Proof. exact b64decode_bytes. Qed.
+
+(** input lexical space: every canonical xs:base64Binary literal is read, by the
+    standard and by the urlsafe reader, as the byte string whose encoding it is *)
+Theorem C08_base64_in_lex : forall s, xs_base64 s = true ->
+  exists bs, Forall (fun b => byte_ok b = true) bs /\ b64encode false bs = s
+             /\ forall url, b64decode url s = Ok bs.
+Proof. exact b64_in_lex. Qed.
+
+(** every xs:hexBinary literal, upper or lower case, is read as the byte string
+    whose hexlify is the literal in lower case *)
+Theorem C08_hex_in_lex : forall s, xs_hex s = true ->
+  exists bs, Forall (fun b => byte_ok b = true) bs /\ unhexlify s = Ok bs
+             /\ hexlify bs = map lower s.
+Proof. exact hex_in_lex. Qed.
 
 (** non-vacuity *)
 (* b"\x00\xff\xfb\xef\xbe" : 5 bytes, one padding character, uses '+'/'/' resp. '-'/'_' *)
@@ -71,3 +91,14 @@ Example C08_ex_hex_reader_total :
 Proof. vm_compute. repeat split. Qed.
 Example C08_ex_hex_reader_bytes : unhexlify [70; 70; 48; 48] = Ok [255; 0].
 Proof. vm_compute. reflexivity. Qed.
+Example C08_ex_base64_reader_bytes : b64decode true [45; 95; 45; 95] = Ok [251; 255; 191].
+Proof. vm_compute. reflexivity. Qed.
+(* "+/8=" : a literal with one padding character; read by both readers as b"\xfb\xff" *)
+Example C08_ex_base64_in_lex :
+  xs_base64 [43; 47; 56; 61] = true /\ b64decode false [43; 47; 56; 61] = Ok [251; 255]
+  /\ b64decode true [43; 47; 56; 61] = Ok [251; 255] /\ b64encode false [251; 255] = [43; 47; 56; 61].
+Proof. vm_compute. repeat split. Qed.
+(* "Ab" (mixed case) *)
+Example C08_ex_hex_in_lex :
+  xs_hex [65; 98] = true /\ unhexlify [65; 98] = Ok [171] /\ hexlify [171] = map lower [65; 98].
+Proof. vm_compute. repeat split. Qed.
